@@ -41,7 +41,7 @@ Keys:  c01:<reparse|fixpoint|base-tree-equal|time-format>:<dialect|base>:<cause 
   fixpoint         cause = first structural difference between t0 (which generated s1) and t1 (which generated s2), found
   base-tree-equal          top-down: `<Class>` (class replaced: `<ClassA>-><ClassB>`), `<Class>.<arg>` (arg present on one
                            side only / scalar differs / list length differs); `same-tree` if no structural difference
-  time-format      cause = `tree:<Class>` | `text:<Class>` | `format_time:<inverse-not-left-inverse|rechunk>`
+  time-format      cause = `<Class of the format-carrying node>` | `format_time:<inverse-not-left-inverse|rechunk>`
 """
 import itertools
 import logging
@@ -288,7 +288,7 @@ def check_pair(item):
             if fmt_tree_differs and diff_in_time_node:
                 pass  # one defect, one key: reported by (iv) below
             elif fmt_cls:
-                V("time-format", f"text:{fmt_cls}{utag()}", "format text changes between first and second generation", s1=s1, s2=s2, tree=ti)
+                V("time-format", f"{fmt_cls}{utag()}", "format text changes between first and second generation", s1=s1, s2=s2, tree=ti)
             else:
                 cause = diff[0] if diff else "same-tree"
                 V("fixpoint", cause + utag(), "second generation differs from the first", s1=s1, s2=s2, tree=ti)
@@ -299,7 +299,7 @@ def check_pair(item):
         # (iv)
         if fmt_tree_differs:
             cls, pfmt = lost[0]
-            V("time-format", f"tree:{cls}{utag()}", f"format {pfmt!r} of {cls} is not in parse(s1): its string literals are {string_literals(t1)[:4]}", s1=s1, s2=s2, tree=ti)
+            V("time-format", f"{cls}{utag()}", f"format {pfmt!r} of {cls} is not in parse(s1): its string literals are {string_literals(t1)[:4]}", s1=s1, s2=s2, tree=ti)
     # public API pair (single statement only: parse_one wraps several statements into a Block)
     if len(trees) == 1 and res["evals"]:
         st, sa = _call(lambda: sqlglot.parse_one(s, read=d or None).sql(dialect=d or None))
@@ -403,7 +403,7 @@ def dialect_ops(d):
     return sorted(ops)
 
 
-PARTNERS_QUICK = ["+", "AND"]
+PARTNERS_QUICK = ["+", "AND", "=", "LIKE", "||"]
 PARTNERS_THOROUGH = ["+", "*", "AND", "OR", "=", "<", "||", "IS", "LIKE", "&"]
 
 
